@@ -311,3 +311,26 @@ def exit_value(p: SymPath) -> Any:
         if a == atom:
             return ("const", want == pol)
     return t
+
+
+def nonneg_local(prog, outer, param: str) -> str | None:
+    """name of the local of `outer` that is bound exactly once, to `max(0.0, <param>)` (either argument order): the
+    normalised copy of a numeric parameter that a returned closure reads (whatever the local is called)"""
+    import ast as _ast
+
+    hits = []
+    for n in prog._own_nodes(outer.node):
+        tgt = val = None
+        if isinstance(n, _ast.Assign) and len(n.targets) == 1:
+            tgt, val = n.targets[0], n.value
+        elif isinstance(n, _ast.AnnAssign) and n.value is not None:
+            tgt, val = n.target, n.value
+        if not (isinstance(tgt, _ast.Name) and isinstance(val, _ast.Call) and isinstance(val.func, _ast.Name) and val.func.id == "max" and len(val.args) == 2 and not val.keywords):
+            continue
+        a, b = val.args
+        zero = lambda x: isinstance(x, _ast.Constant) and isinstance(x.value, (int, float)) and not isinstance(x.value, bool) and x.value == 0  # noqa: E731
+        par = lambda x: isinstance(x, _ast.Name) and x.id == param  # noqa: E731
+        if (zero(a) and par(b)) or (par(a) and zero(b)):
+            hits.append(tgt.id)
+    stores = [n.id for n in prog._own_nodes(outer.node) if isinstance(n, _ast.Name) and isinstance(n.ctx, _ast.Store)]
+    return hits[0] if len(hits) == 1 and stores.count(hits[0]) == 1 else None
